@@ -23,13 +23,18 @@ noncomputable def Mr : MathOps ℝ where
   asin := fun _ => 0
   atan2 := fun _ _ => 0
   pi := 3
-  floor := fun x => x
+  floor := fun x => ((⌊x⌋ : ℤ) : ℝ)
 
-/-- The `sqrt` law, `sqrt 1 = 1` and `cos² + sin² = 1` hold together for `Mr` (every angle). -/
+/-- The `sqrt` law, `sqrt 1 = 1`, `cos² + sin² = 1` (every angle), the floor law, integrality of
+`floor` and `0 < π` hold together for `Mr`. -/
 example :
     (∀ x : ℝ, 0 ≤ x → Mr.sqrt x * Mr.sqrt x = x ∧ 0 ≤ Mr.sqrt x) ∧ Mr.sqrt 1 = 1 ∧
-    (∀ θ : ℝ, Mr.cos θ * Mr.cos θ + Mr.sin θ * Mr.sin θ = 1) :=
+    (∀ θ : ℝ, Mr.cos θ * Mr.cos θ + Mr.sin θ * Mr.sin θ = 1) ∧
+    (∀ x : ℝ, Mr.floor x ≤ x ∧ x < Mr.floor x + 1) ∧ (∀ x : ℝ, ∃ n : ℤ, Mr.floor x = n) ∧
+    0 < Mr.pi :=
   ⟨fun x hx => ⟨Real.mul_self_sqrt hx, Real.sqrt_nonneg x⟩, Real.sqrt_one,
-   fun _ => by simp only [Mr]; norm_num⟩
+   fun _ => by simp only [Mr]; norm_num,
+   fun x => ⟨Int.floor_le x, Int.lt_floor_add_one x⟩, fun x => ⟨⌊x⌋, rfl⟩,
+   by simp only [Mr]; norm_num⟩
 
 end Lbg.Props.C02
